@@ -288,6 +288,27 @@ def run_cross5(case):
     return session.run_cross_resume(case, lambda: [schedule_monitor("sched", resumed=True)])
 
 
+def run_sentinel(case):
+    """Value regime: likelihoods that return a huge FINITE sentinel (-1e300, -1e30, -1e15) instead of -inf outside their support.  Such samples carry
+    full weight at beta=0 and none at any beta > 0, so the ESS is discontinuous at 0: one transition from warm-up pools made of sentinel and
+    ordinary samples in several proportions, ESS and volume-variation mode."""
+    res = Res()
+    n = case["n"]
+    for W in (1, 2, 3):
+        N = n * W
+        for frac in (0.25, 0.5, 0.75):
+            k = int(N * frac)
+            good = [-0.5 * ((i + 0.5) / (N - k)) ** 2 * case["scale"] for i in range(N - k)]
+            lv = [case["sentinel"]] * k + good
+            perm = np.argsort((np.arange(N) * 0.6180339887) % 1.0)
+            lv = [lv[i] for i in perm]
+            for ratio in (0.5 * W * (1 - frac), 0.9 * W * (1 - frac), 0.5 * W * (2 - frac), 0.98 * W):
+                for vv in (None, 0.5):
+                    one_transition(res, dict(case), [n] * W, [0.0] * W, [0.0] * W, lv, n, float(ratio), vv, d=1)
+    res.states += 1
+    return res
+
+
 def run_ladder5(case):
     """Scale ladder: one reweighting transition from pools of 3e4 .. 1.3e5 samples (beyond any block / thinning threshold a refactoring would pick),
     warm-up pools and mid-run pools, ESS and volume-variation mode, with the same oracle as the small lattice."""
@@ -347,7 +368,7 @@ def run_session5(case):
     return session.run_case(case, lambda: [schedule_monitor("sched")], oracle=None, key_pred=lambda k: k.startswith("sched:") or k.startswith("session:copy") or k.startswith("session:deepcopy"))
 
 
-KINDS = {"ladder": run_ladder5, "session": run_session5, "cross": run_cross5, "duo": run_duo, "edge": run_edge, "stateful": run_stateful, "block": run_block, "rw1": run_rw1, "first": run_first, "pipe": run_pipe, "pipe1": run_pipe1}
+KINDS = {"sentinel": run_sentinel, "ladder": run_ladder5, "session": run_session5, "cross": run_cross5, "duo": run_duo, "edge": run_edge, "stateful": run_stateful, "block": run_block, "rw1": run_rw1, "first": run_first, "pipe": run_pipe, "pipe1": run_pipe1}
 
 FACTORS = [
     ("sample", ["tpcn", "rwm"]),
@@ -387,6 +408,7 @@ def plan(ctx):
     dcfg = dict(n_particles=8, d=1, ess_ratio=1.0, n_total=10 ** 6, eval="scalar", clustering=False)
     duo = [{"kind": "duo", "cfg": dict(dcfg, vv=vv), "base": ctx.seed, "depth": 5 if th else 4, "shard": [sh, 8]} for vv in (None, 0.5) for sh in range(8)]
     ctx.explore("two-samplers-interleaved", duo)
+    ctx.explore("finite-sentinel-likelihoods", [{"kind": "sentinel", "n": n_, "sentinel": sv, "scale": sc} for n_ in (16, 64) for sv in (-1e300, -1e30, -1e15) for sc in (1.0, 30.0)])
     ctx.explore("scale-ladder", [{"kind": "ladder", "n": n_, "W": W_, "d": 2} for n_, W_ in ((4096, 9), (2048, 20), (8192, 8)) + (((16384, 8),) if th else ())])
     from mc.pipeline import LARGE
     ctx.explore("large-scopes", [{"kind": "pipe1", "cfg": c, "base": ctx.seed + b} for c in LARGE for b in ((0, 4) if th else (0,))])
